@@ -165,6 +165,37 @@ def run(ctx):
             ctx.put_sample({'random_stream_len': ln, 'messages': len(msgs),
                             'head': ' '.join('%02X' % b for b in data[:24])})
     ctx.extra('random_streams', nr)
+    # size ladders: long runs of data bytes / long sysex (status bytes are rare here)
+    sizes = [253, 254, 255, 256, 257, 1023, 1024, 1025, 4095, 4096, 4097, 65535, 65536, 65537, 70000]
+    for si, ln in enumerate(sizes):
+        if si % ctx.nshards != ctx.shard:
+            continue
+        body = [ctx.rng.randrange(128) for _ in range(ln)]
+        for variant in range(4):
+            if variant == 0:
+                data = [0xF0] + body + [0xF7]
+            elif variant == 1:                       # real-time bytes inside
+                data = [0xF0] + body[:ln // 2] + [0xF8] + body[ln // 2:] + [0xFE, 0xF7, 0x90, 1, 2]
+            elif variant == 2:                       # stray data run, then a message
+                data = body + [0xC3, 5]
+            else:                                    # unterminated, then interrupted
+                data = [0xF0] + body + [0x92, 1, 2, 0xF7]
+            judge_stream(ctx, data, f'size-{ln}')
+            ctx.nontrivial(('size', ln, variant))
+            n += 1
+    ctx.extra('size_ladder', set(sizes))
+    # a sparse random stream (few status bytes) and a very long stream of one-byte messages:
+    # more than 2**18 messages pending in one parser
+    if ctx.shard == 7 % ctx.nshards:
+        judge_stream(ctx, gen.random_stream(ctx.rng, 20000, 0.002), 'sparse')
+        n += 1
+    if ctx.shard == 9 % ctx.nshards:
+        many = [ctx.rng.choice((0xF8, 0xFA, 0xFB, 0xFC, 0xFE, 0xFF, 0xF6)) for _ in range(2 ** 18 + 300)]
+        many[1000:1000] = [0x90, 1, 2, 0xF0, 3, 0xF7]
+        judge_stream(ctx, many, 'many-messages')
+        ctx.nontrivial(('many', len(many)))
+        ctx.extra('messages_in_longest_stream', len(many) - 4)
+        n += 1
     ctx.extra('distinct_output_shapes_enum', len(shapes))
     ctx.extra('byte_class_bigrams_seen_random', {f'{a}>{b}' for a, b in bigrams})
     ctx.count('cases', n)
